@@ -208,13 +208,16 @@ template <int N> static void run_static_square(Ctx &c) {
 // block_crs backend: sizes not divisible by the block size --------------------------------------------
 static void run_block_crs(Ctx &c) {
     const long n = c.n; if (n < 1) return;
-    gen::Csr A = gen::make_rect(n, n, (uint64_t)c.p.get("mseed"), (int)c.p.get("density"), true, false, false);
+    const long m = c.m < 1 ? 1 : c.m;      // rectangular shapes too (transfer operators live in this backend as well)
+    gen::Csr A = gen::make_rect(n, m, (uint64_t)c.p.get("mseed"), (int)c.p.get("density"), true, false, false);
     auto M = to_crs(A);
     typedef be::block_crs<double> BB; BB::params bp; bp.block_size = (size_t)c.p.get("bs");
     auto Bm = BB::copy_matrix(M, bp);
-    size_t bs = bp.block_size, nb = (n + bs - 1) / bs;
-    std::vector<double> x(nb * bs, 0.0), y(nb * bs, 0.0), out(nb * bs);
-    for (long i = 0; i < n; ++i) { x[i] = (double)c.r.range(-8, 8); y[i] = (double)c.r.range(-8, 8); }
+    size_t bs = bp.block_size, nb = (n + bs - 1) / bs, mb = (m + bs - 1) / bs;
+    std::vector<double> x(mb * bs, 0.0), y(nb * bs, 0.0), out(nb * bs);
+    for (long i = 0; i < m; ++i) x[i] = (double)c.r.range(-8, 8);
+    for (long i = 0; i < n; ++i) y[i] = (double)c.r.range(-8, 8);
+    if (n != m) c.res.counts["block_crs_rectangular"]++;
     auto Ax = [&](long i) { double s = 0; for (ptrdiff_t j = A.ptr[i]; j < A.ptr[i+1]; ++j) s += A.val[j] * x[A.col[j]]; return s; };
     double al = (double)c.p.get("alpha"), bt = (double)c.p.get("beta");
     for (size_t i = 0; i < out.size(); ++i) out[i] = mk<double>::poison((int)i % 3);
